@@ -40,6 +40,7 @@ type ModeResult struct {
 	Stats     map[string]int
 	Rows      int
 	PlanKinds []string
+	Creates   []string // "create <name> <options>" per CREATE TABLE of the plan
 	Changes   []schema.Change
 	Before    *Dump
 	After     *Dump
@@ -84,13 +85,16 @@ func classify(err error) string {
 	return "refused-other"
 }
 
-func planKinds(ctx context.Context, client *sqlclient.Client, changes []schema.Change) []string {
+func planKinds(ctx context.Context, client *sqlclient.Client, changes []schema.Change) ([]string, []string) {
 	p, err := client.PlanChanges(ctx, "x", changes)
 	if err != nil {
-		return []string{"plan-error"}
+		return []string{"plan-error"}, nil
 	}
-	var ks []string
+	var ks, creates []string
 	for _, c := range p.Changes {
+		if m := reCreateTable.FindStringSubmatch(strings.Join(strings.Fields(c.Cmd), " ")); m != nil {
+			creates = append(creates, "create "+hx(m[1])+" "+createOpts(c.Cmd))
+		}
 		f := strings.Fields(c.Cmd)
 		k := strings.ToUpper(f[0])
 		if len(f) > 1 && (k == "CREATE" || k == "DROP" || k == "ALTER" || k == "INSERT") {
@@ -101,7 +105,7 @@ func planKinds(ctx context.Context, client *sqlclient.Client, changes []schema.C
 		}
 		ks = append(ks, k)
 	}
-	return ks
+	return ks, creates
 }
 
 func runMode(ctx context.Context, c *Case, m Mode, dir string) (res ModeResult) {
@@ -145,7 +149,7 @@ func runMode(ctx context.Context, c *Case, m Mode, dir string) (res ModeResult) 
 	}
 	res.NChanges = len(changes)
 	res.Changes = changes
-	res.PlanKinds = planKinds(ctx, client, changes)
+	res.PlanKinds, res.Creates = planKinds(ctx, client, changes)
 	if len(res.PlanKinds) == 1 && res.PlanKinds[0] == "plan-error" {
 		res.Skip = "plan-error"
 		// still apply: an error must leave the database alone
@@ -215,7 +219,7 @@ func runMode(ctx context.Context, c *Case, m Mode, dir string) (res ModeResult) 
 		res.TieSkip = "rawtx-type-change"
 	}
 	if res.TieSkip == "" {
-		res.TieObs = tieObs(before, after, res.ErrClass)
+		res.TieObs = withCreates(tieObs(before, after, res.ErrClass), res.Creates)
 		if res.TieObs == nil {
 			res.TieSkip = "refusal-not-modelled"
 		} else if res.ErrClass == "" && fkAfter >= 0 {
@@ -292,6 +296,8 @@ func main() {
 		runPlan(ctx, w, *tier, *outDir, *only)
 	case "fault":
 		runFault(ctx, w, *tier, tmp, *outDir, *only)
+	case "lock":
+		runLock(ctx, w, *tier, tmp, *outDir, *only)
 	default:
 		fmt.Fprintln(os.Stderr, "unknown mode", *mode)
 		os.Exit(2)
@@ -458,4 +464,13 @@ func aliasRisk(des *Schema, before *Dump) bool {
 		}
 	}
 	return false
+}
+
+// withCreates inserts the "create" lines after the result line of an applied / cut-off run.
+func withCreates(obs, creates []string) []string {
+	if len(obs) == 0 || (obs[0] != "res ok" && obs[0] != "res prefix") {
+		return obs
+	}
+	out := append([]string{obs[0]}, creates...)
+	return append(out, obs[1:]...)
 }
